@@ -164,6 +164,24 @@ let run_decor (id : string) (fields : t list) : string =
   let (u1, r1, v1) = one "doc" and (u2, r2, v2) = one "doc2" in
   Printf.sprintf "%s unm=%s res=%s v=%s unm2=%s res2=%s v2=%s" id u1 r1 v1 u2 r2 v2
 
+(* family defaults: Resolve (ValidateDefaults on/off) then ApplyDefaults on each instance *)
+let run_defaults (id : string) (fields : t list) : string =
+  let rx = rx_of_sexp (L (A "rx" :: list (field "rx" fields))) in
+  let insts = List.map gv_of_sexp (list (field "insts" fields)) in
+  let vd = atom (field1 "vd" fields) = "1" in
+  match M.unmarshal (jdoc_of_sexp (field1 "doc" fields)) with
+  | M.Ok s ->
+      (match M.resolve (re_ok rx) fuel_big s [] None with
+       | M.Ok (env, _) ->
+           let vdres = if vd then M.validateDefaults (re_match rx) (hashfun 0) fuel_big env s else M.Ok () in
+           (match vdres with
+            | M.Ok _ ->
+                let outs = List.map (fun i -> json_to_string (M.applyDefaults s (M.den i))) insts in
+                Printf.sprintf "%s unm=ok res=ok out=%s" id (String.concat ";" outs)
+            | r -> Printf.sprintf "%s unm=ok res=%s" id (res_tag r))
+       | r -> Printf.sprintf "%s unm=ok res=%s" id (res_tag r))
+  | r -> Printf.sprintf "%s unm=%s" id (res_tag r)
+
 let () =
   let family = Sys.argv.(1) in
   let ic = open_in Sys.argv.(2) in
@@ -183,6 +201,7 @@ let () =
                  | "roundtrip" -> run_roundtrip id fields
                  | "docrt" -> run_docrt id fields
                  | "decor" -> run_decor id fields
+                 | "defaults" -> run_defaults id fields
                  | f -> failwith ("unknown family " ^ f))
             | _ -> failwith "case expected"
           with Failure m -> "DRIVER-ERROR " ^ m
